@@ -129,6 +129,11 @@ def _verify(ex, ctx, fi, contract, res):
     env = {}
     ann = {a.arg: a.annotation for a in fnode.args.posonlyargs + fnode.args.args + fnode.args.kwonlyargs}
     for n in cnames:
+        if tys.get(n) == "Debug":
+            # the process-wide debug store (aldy.common.json and what is read out of it): writes are dropped
+            from .interp import VDebug
+            env[n] = VDebug()
+            continue
         if n in tys:
             ty = schema.parse(tys[n])
         elif n == "self" and fi.cls is not None:
